@@ -84,8 +84,9 @@ def probes():
 
 
 def pristine_module():
+    """Back to the pristine defaults through the public API (no knowledge of where they are kept)."""
     import prettyprinter
-    prettyprinter._default_config = dict(PRISTINE)
+    prettyprinter.set_default_config(**{k: v for k, v in PRISTINE.items() if k != 'indent'})
     return prettyprinter
 
 
